@@ -17,12 +17,13 @@ theorem generated_racy_sites_known : racySites.all (["Components.MapToTags.Run"]
 
 
 
+
 -- BEGIN PINS (written by bin/mkpins; do not edit by hand)
 /-- the Go functions this property's model and obligations were written against have exactly the
 pinned skeletons (SHA-256 prefix of the atom list) -/
 theorem pinned_skeletons_c12 :
     pinsOk
-    [("Cmd.#decls", "a23633f4a063b15d"),
+    [("Cmd.#decls", "89450b1c59cda39b"),
      ("Cmd.auditInfoToHTML", "c3cd59286ae045b7"),
      ("Components.#decls", "84eddb1c2309452c"),
      ("Components.Concatenator_Run", "31b9a713ae609514"),
@@ -32,7 +33,7 @@ theorem pinned_skeletons_c12 :
      ("Components.IPSelectorSync_Run", "bdc706bc9ab92453"),
      ("Components.MapToTags_Run", "639dd3a11150ec10"),
      ("Components.StreamToSubStream_Run", "3877054697bb0416"),
-     ("Scipipe.#decls", "7633eb8a74616d59"),
+     ("Scipipe.#decls", "08e57e98702ecd70"),
      ("Scipipe.NewTask", "95298f03c320cb96"),
      ("Scipipe.Process_Run", "05880ea16e590fb1"),
      ("Scipipe.Process_createTasks", "8c856d9ef4492f5d"),
